@@ -138,6 +138,16 @@ pub fn stress_sources() -> Vec<(String, String)> {
         "readme-array-size-let".into(),
         "let a = array(let size = 3, begin size * 2 end);\nprint(\"~ ~\\n\", size, a);\nlet b = array(let n2 = 2, null);\nprint(\"~ ~\\n\", n2, b);\nfunction f() -> begin let c = array(let m = 2, begin m end); m + c[1] end;\nprint(\"~\\n\", f());\nlet i = 1;\nlet c = array(4, begin let x = i; i <- i + 1; x end);\nprint(\"~ ~\\n\", c, i);\n".into(),
     ));
+    // nested arrays: the inner array is created once per row, rows are distinct objects
+    v.push((
+        "nested-array-rows".into(),
+        "let m = array(3, array(3, 0));\nm[0][1] <- 7;\nm[2][2] <- 9;\nprint(\"~\\n\", m);\nlet k = 2;\nlet n = array(k, array(k, k));\nn[1][0] <- 5;\nprint(\"~\\n\", n);\nlet row = array(2, 1);\nlet shared = array(2, row);\nshared[0][0] <- 4;\nprint(\"~ ~\\n\", shared, row);\nlet o = array(2, object begin let c = 0; end);\no[0].c <- 1;\nprint(\"~\\n\", o);\nfunction mk(n) -> array(n, array(n, null));\nlet g = mk(2);\ng[0][0] <- g;\nprint(\"~\\n\", g[1]);\n".into(),
+    ));
+    // object literals with methods nested inside method bodies and function bodies
+    v.push((
+        "nested-object-literals".into(),
+        "let outer = object begin\n  let tag = 1;\n  function make(a) -> object begin let v = a; function inner(b) -> object begin let w = b; function deepest() -> this.w * 100; end; function get(i) -> this.v + i; end;\n  function after() -> this.tag + 1;\nend;\nlet made = outer.make(5);\nprint(\"~ ~ ~ ~\\n\", made[2], made.inner(3).deepest(), outer.after(), made);\nfunction build(n) -> object begin function one() -> object begin function two() -> n2(); end; end;\nfunction n2() -> 22;\nprint(\"~\\n\", build(1).one().two());\n".into(),
+    ));
     // several zero-length arrays and empty objects
     v.push(("empty-allocations".into(), "let k = 0; while k < 3 do begin array(0, k); array(0, begin k end); object begin end; k <- k + 1 end;\nprint(\"~ ~ ~\\n\", array(0, 1), array(0, begin 2 end), object begin end);\n".into()));
     // user-defined methods that carry the Feeny names of built-ins
